@@ -960,7 +960,7 @@ def main():
     try:
         tasks = [t + (tmp,) for t in small_tasks(tier, seed)]
         nA = sum(len(t[2]) for t in tasks)
-        nB, nC, nD = (1000, 900, 480) if tier == 'quick' else (24000, 18000, 6000)
+        nB, nC, nD = (1000, 900, 480) if tier == 'quick' else (40000, 30000, 8000)
         for kind, n, per in (('B', nB, 25), ('C', nC, 45), ('D', nD, 60)):
             for i in range(n // per):
                 tasks.append((kind, seed * 1000003 + 7919 * i + ord(kind), per, tmp))
